@@ -95,6 +95,8 @@ type eng struct {
 	real  bool
 	// pendingErr: a protocol error taken off errCh while looking for its event
 	pendingErr error
+	// handlerWait overrides realHandlerWait (0: default)
+	handlerWait time.Duration
 }
 
 func roleAgency(r protocol.ProtocolRole) agency {
@@ -262,6 +264,9 @@ func (e *eng) awaitHandled() (bool, error) {
 	w := stepWait
 	if e.real {
 		w = realHandlerWait
+		if e.handlerWait != 0 {
+			w = e.handlerWait
+		}
 	}
 	t := time.NewTimer(w)
 	defer t.Stop()
@@ -360,6 +365,16 @@ func driveTrace(b *binding, impl implAuto, role protocol.ProtocolRole, useReal b
 		ev, err := e.awaitTransition()
 		var pf *protoFailed
 		if errors.As(err, &pf) {
+			if _, wantOk := impl.step(cur, sym); useReal && !local && wantOk {
+				// every earlier received message of this trace was handled successfully and
+				// this one is permitted here: an error before the state machine judged it
+				// comes from the object's own decoder / configuration
+				res.mismatch = &stepVerdict{
+					key: fmt.Sprintf("real:%s:%s:%s:%s:impl-rejects/spec-accepts", b.proto, roleName(role), cur, sym),
+					what: fmt.Sprintf("%s: the real %s object in state %s answered the permitted message %s with a protocol error before the state machine judged it: %v",
+						b.id, roleName(role), cur, sym, pf.err)}
+				return res
+			}
 			if useReal {
 				res.cut = "real object stopped: " + pf.Error()
 				return res
